@@ -32,7 +32,7 @@ package heap
 
 //@ pred mapsTo(h) = h.indexChanged.bn >= 0
 //@   && (forall k int {h.indexChanged.f[k]} :: 0 <= k && k < len(h.a) ==> 0 <= h.indexChanged.f[k] && h.indexChanged.f[k] < h.indexChanged.bn
-//@          && h.indexChanged.f[k] != h.indexChanged.gone && h.a[k] == h.indexChanged.base[h.indexChanged.f[k]] && h.indexChanged.g[h.indexChanged.f[k]] == k)
+//@          && h.indexChanged.f[k] != h.indexChanged.gone && h.a[k] == h.indexChanged.base[h.indexChanged.f[k]] && h.indexChanged.g[h.indexChanged.f[k]] == k && hint(h.indexChanged.f[k]))
 //@   && (forall m int {h.indexChanged.g[m]} :: 0 <= m && m < h.indexChanged.bn && m != h.indexChanged.gone ==> 0 <= h.indexChanged.g[m] && h.indexChanged.g[m] < len(h.a)
 //@          && h.indexChanged.f[h.indexChanged.g[m]] == m)
 
@@ -69,9 +69,9 @@ package heap
 
 // percolateUp(i): every edge is in order except the one above i and the ones below the original i
 // (MOVING), or nothing needs to move any more (SETTLED); see DESIGN.md 4.5.
-//@ pred moving(h, i, i0) = (forall j int {h.a[j]} :: 0 < j && j < len(h.a) && j != i && ((j-1)/2 != i0 || i != i0) ==> ordAt(h, j))
-//@   && (i > 0 ==> (forall c int {h.a[c]} :: 0 < c && c < len(h.a) && (c-1)/2 == i ==> !h.lessFn(h.a[c], h.a[(i-1)/2])))
-//@   && (i == i0 ==> row(h.a) == old(row(h.a)))
+//@ pred movingA(h, i, i0) = forall j int {h.a[j]} :: 0 < j && j < len(h.a) && j != i && ((j-1)/2 != i0 || i != i0) ==> ordAt(h, j)
+//@ pred movingB(h, i) = i > 0 ==> (forall c int {h.a[c]} :: 0 < c && c < len(h.a) && (c-1)/2 == i ==> !h.lessFn(h.a[c], h.a[(i-1)/2]))
+//@ pred moving(h, i, i0) = movingA(h, i, i0) && movingB(h, i) && (i == i0 ==> row(h.a) == old(row(h.a)))
 //@ pred settled(h, i, i0) = i < i0 && (forall j int {h.a[j]} :: 0 < j && j < len(h.a) && (j-1)/2 != i0 ==> ordAt(h, j))
 //@   && ((forall c int {h.a[c]} :: 0 < c && c < len(h.a) && (c-1)/2 == i0 ==> ordAt(h, c)) || row(h.a) == old(row(h.a)))
 
@@ -83,6 +83,8 @@ package heap
 //@   modifies elems(h.a), h.indexChanged.N, h.indexChanged.f, h.indexChanged.g
 //@   loop 0: invariant 0 <= i && i <= old(i) && same(h) && mapsTo(h) && synced(h)
 //@   loop 0: invariant moving(h, i, old(i)) || settled(h, i, old(i))
+//@   after call swap[0]: assert movingA(h, p, old(i))
+//@   after call swap[0]: assert movingB(h, p)
 //@   ensures same(h) && mapsTo(h) && synced(h)
 //@   ensures forall j int {h.a[j]} :: 0 < j && j < len(h.a) && (j-1)/2 != i ==> ordAt(h, j)
 //@   ensures (forall c int {h.a[c]} :: 0 < c && c < len(h.a) && (c-1)/2 == i ==> ordAt(h, c)) || row(h.a) == old(row(h.a))
@@ -172,3 +174,44 @@ package heap
 //@   ensures mapsTo(h) && h.indexChanged.bn == len(h.a) && h.indexChanged.gone == -1 && h.indexChanged.base[i] == item
 //@   ensures forall j int {h.indexChanged.base[j]} :: 0 <= j && j < len(h.a) && j != i ==> h.indexChanged.base[j] == old(h.a[j])
 //@   ensures C15: h.gen > old(h.gen)
+
+//@ pred distinctKeys(s) = forall k1 int, k2 int {s[k1], s[k2]} {hint(k1), hint(k2)} :: 0 <= k1 && k1 < k2 && k2 < len(s) ==> keyOf(s[k1]) != keyOf(s[k2])
+
+//@ func New
+//@   props C05
+//@   requires less != nil && indexChanged != nil && swoF(less, initial)
+//@   modifies elems(initial), indexChanged.N, indexChanged.f, indexChanged.g, indexChanged.base, indexChanged.bn, indexChanged.gone, indexChanged.lo, indexChanged.tracks
+//@   ghostinit indexChanged.tracks := false
+//@   ghostinit indexChanged.base := lambda j int :: initial[j]
+//@   ghostinit indexChanged.bn := len(initial)
+//@   ghostinit indexChanged.gone := -1
+//@   ghostinit indexChanged.f := lambda j int :: j
+//@   ghostinit indexChanged.g := lambda j int :: j
+//@   before call percolateDown[0]: ghost h.indexChanged.lo := i
+//@   loop 0: invariant -1 <= i && i < len(initial) + 1 && h.a == initial && h.lessFn == less && h.indexChanged == indexChanged && h.gen == 0
+//@   loop 0: invariant mapsTo(h) && !indexChanged.tracks
+//@   loop 0: invariant forall j int {h.a[j]} :: 0 < j && j < len(h.a) && (j-1)/2 > i ==> ordAt(h, j)
+//@   loop 1: invariant h.a == initial && h.lessFn == less && h.indexChanged == indexChanged && h.gen == 0 && heapOK(h) && mapsTo(h) && !indexChanged.tracks
+//@   loop 1: invariant old(distinctKeys(initial)) ==> distinctKeys(h.a)
+//@   loop 1: invariant old(distinctKeys(initial)) ==> (forall k int {h.a[k]} :: 0 <= k && k < idx1 ==> indexChanged.N[keyOf(h.a[k])] == k)
+//@   ghost indexChanged.tracks := old(distinctKeys(initial))
+//@   ensures result.a == initial && result.lessFn == less && result.indexChanged == indexChanged && result.gen == 0
+//@   ensures heapOK(result) && synced(result) && mapsTo(result) && indexChanged.bn == len(initial) && indexChanged.gone == -1
+//@   ensures indexChanged.tracks == old(distinctKeys(initial))
+//@   ensures forall j int {indexChanged.base[j]} :: 0 <= j && j < len(initial) ==> indexChanged.base[j] == old(initial[j])
+
+//@ func Heap.Grow
+//@   props C05 C15
+//@   requires wfH(h)
+//@   modifies h.a
+//@   panics when n < 0
+//@   ensures wfH(h) && len(h.a) == old(len(h.a)) && h.gen == old(h.gen) && h.lessFn == old(h.lessFn) && h.indexChanged == old(h.indexChanged)
+//@   ensures forall k int {h.a[k]} :: 0 <= k && k < len(h.a) ==> h.a[k] == old(h.a[k])
+
+//@ func Heap.Shrink
+//@   props C05 C15
+//@   requires wfH(h)
+//@   modifies h.a
+//@   panics when n < 0
+//@   ensures wfH(h) && len(h.a) == old(len(h.a)) && h.gen == old(h.gen) && h.lessFn == old(h.lessFn) && h.indexChanged == old(h.indexChanged)
+//@   ensures forall k int {h.a[k]} :: 0 <= k && k < len(h.a) ==> h.a[k] == old(h.a[k])
